@@ -8,6 +8,11 @@ def get_key(ident, value, default=None):
     return os.environ.get(key, default)
 
 
+def get_list(ident, value):
+    # ''.split(',') is [''], which would grant a channel with an empty name
+    return [item for item in get_key(ident, value, '').split(',') if item]
+
+
 class Authenticator(object):
 
     '''
@@ -40,6 +45,6 @@ class Authenticator(object):
             'ident': ident,
             'owner': get_key(ident, 'owner', ident),
             'secret': secret,
-            'subchans': get_key(ident, 'subchans', '').split(','),
-            'pubchans': get_key(ident, 'pubchans', '').split(','),
+            'subchans': get_list(ident, 'subchans'),
+            'pubchans': get_list(ident, 'pubchans'),
         }
